@@ -353,3 +353,79 @@ Section HelpParse.
     cbn [ld_names ld_items ld_tail]. now rewrite pos_events, pos_values, app_nil_r.
   Qed.
 End HelpParse.
+
+(* ================= finding the help command in the built application ================= *)
+Lemma cc_cmds_fold l : forall c,
+  cc_cmds (fold_left coll_add l c) = fold_left (fun d b => sset (b_name b) b d) l (cc_cmds c).
+Proof. induction l as [|b r IH]; intros c; [reflexivity|]. cbn [fold_left]. now rewrite IH. Qed.
+Lemma fold_sset_other n : forall (l : list bcmd) d, ~ In n (map b_name l) ->
+  sget n (fold_left (fun d b => sset (b_name b) b d) l d) = sget n d.
+Proof.
+  induction l as [|b r IH]; intros d Hn; [reflexivity|]. cbn [fold_left]. rewrite IH by (intros H; apply Hn; now right).
+  unfold sget, sset. rewrite sget_sset. destruct (str_eqb_spec n (b_name b)) as [->|]; [|reflexivity].
+  exfalso. apply Hn. now left.
+Qed.
+Lemma fold_sset_found b : forall (l : list bcmd) d, NoDup (map b_name l) -> In b l ->
+  sget (b_name b) (fold_left (fun d b => sset (b_name b) b d) l d) = Some b.
+Proof.
+  induction l as [|x r IH]; intros d Hnd Hin; [destruct Hin|]. cbn [map] in Hnd. inversion Hnd as [|? ? Hx Hr]; subst.
+  cbn [fold_left]. destruct Hin as [->|Hin]; [|now apply IH].
+  rewrite fold_sset_other by exact Hx. unfold sget, sset. now rewrite sget_sset, str_eqb_refl.
+Qed.
+Lemma coll_of_found l b : NoDup (map b_name l) -> In b l ->
+  coll_contains (coll_of l) (b_name b) = true /\ coll_get (coll_of l) (b_name b) = Ok b.
+Proof.
+  intros Hnd Hin. unfold coll_contains, coll_get, coll_of. rewrite shas_sget, cc_cmds_fold.
+  now rewrite (fold_sset_found b l _ Hnd Hin).
+Qed.
+Lemma nodup_names_filter p : forall l : list bcmd, NoDup (map b_name l) -> NoDup (map b_name (filter p l)).
+Proof.
+  induction l as [|x r IH]; intros H; [constructor|]. cbn [map] in H. inversion H as [|? ? Hx Hr]; subst. cbn [filter].
+  destruct (p x); [|now apply IH]. cbn [map]. constructor; [|now apply IH].
+  intros Hin. apply Hx. apply in_map_iff in Hin as [y [Ey Hy]]. apply filter_In in Hy as [Hy _].
+  apply in_map_iff. eauto.
+Qed.
+
+Lemma build_cmd_name base c b : build_cmd base c = Ok b -> b_name b = (let '(Cmd n _ _ _ _ _ _ _ _) := c in n).
+Proof.
+  destruct c as [name al d an en len opts args subs]. rewrite build_cmd_eq.
+  destruct (format_of_elements _ base); cbn [bind]; [|discriminate]. destruct (build_subs_of _ subs); cbn [bind]; [|discriminate].
+  intros H. inversion H. reflexivity.
+Qed.
+(* add_command refuses a name already there: the built commands have distinct names *)
+Lemma build_cmds_nodup g : forall l seen cs, build_cmds g seen l = Ok cs ->
+  NoDup (map b_name cs) /\ forall b, In b cs -> ~ In (b_name b) seen.
+Proof.
+  induction l as [|c r IH]; intros seen cs; [cbn; intros H; inversion H; split; [constructor|intros ? []]|].
+  destruct c as [name al d an en len opts args subs]. cbn [build_cmds].
+  destruct (negb en); [apply IH|]. destruct name as [|ch name]; [discriminate|]. cbn [negb].
+  destruct (existsb (str_eqb (ch :: name)) seen) eqn:Es; [discriminate|].
+  destruct (build_cmd (Some g) _) as [b|k] eqn:E1; cbn [bind]; [|discriminate].
+  destruct (build_cmds g _ r) as [bs|k] eqn:E2; cbn [bind]; [|discriminate].
+  intros H. inversion H; subst cs. clear H. apply build_cmd_name in E1. destruct (IH _ _ E2) as [I1 I2]. split.
+  - cbn [map]. constructor; [|exact I1]. intros Hin. apply in_map_iff in Hin as [y [Ey Hy]].
+    apply (I2 y Hy). rewrite Ey, E1. now left.
+  - intros y [<-|Hy].
+    + rewrite E1. intros Hin. assert (existsb (str_eqb (ch :: name)) seen = true) as Ht; [|congruence].
+      apply existsb_exists. exists (ch :: name). split; [exact Hin|apply str_eqb_refl].
+    + intros Hin. apply (I2 y Hy). right. apply in_or_app. now right.
+Qed.
+(* an enabled command of the configuration is built, over the global format *)
+Lemma build_cmds_in g name al d an len opts args : forall l seen cs,
+  build_cmds g seen l = Ok cs -> In (Cmd name al d an true len opts args []) l ->
+  exists f, format_of_elements (cmd_elements name al an opts args) (Some g) = Ok f /\ In (BCmd name al d an len f []) cs.
+Proof.
+  induction l as [|c r IH]; intros seen cs H Hin; [destruct Hin|].
+  destruct c as [name' al' d' an' en' len' opts' args' subs']. cbn [build_cmds] in H.
+  destruct Hin as [E|Hin].
+  - inversion E; subst. cbn [negb] in H. destruct name as [|ch name]; [discriminate|].
+    destruct (existsb _ seen); [discriminate|]. rewrite build_cmd_eq in H.
+    destruct (format_of_elements _ (Some g)) as [f|k]; cbn [bind] in H; [|discriminate]. cbn [build_subs_of bind] in H.
+    destruct (build_cmds g _ r) as [bs|k]; cbn [bind] in H; [|discriminate].
+    inversion H; subst. exists f. split; [reflexivity|now left].
+  - destruct (negb en'); [eapply IH; eauto|]. destruct name' as [|ch' name']; [discriminate|].
+    destruct (existsb _ seen); [discriminate|].
+    destruct (build_cmd (Some g) _) as [b|k]; cbn [bind] in H; [|discriminate].
+    destruct (build_cmds g _ r) as [bs|k] eqn:E2; cbn [bind] in H; [|discriminate].
+    inversion H; subst. destruct (IH _ _ E2 Hin) as [f [F1 F2]]. exists f. split; [exact F1|now right].
+Qed.
